@@ -1170,12 +1170,13 @@ func (g *generatorObject) _return(v Value) Value {
 	canContinue := g.gen.enterNextFinallyFrame()
 	if !canContinue {
 		vm := g.gen.vm
-		g.state = genStateCompleted
 
 		entered = false
 		vm.popTryFrame()
 
+		// the generator is still executing while its live iterators are being closed (a re-entrant call must throw)
 		ex := vm.restoreStacks(g.gen.iterStackLen, g.gen.refStackLen)
+		g.state = genStateCompleted
 
 		if ex != nil {
 			panic(ex)
